@@ -4,7 +4,7 @@ CONSTANTS Operands <- OperandsA
  MaxOps = 3
  LongOperands <- OperandsD
  LongOps <- OpsAll
- LongPres <- PresNot
+ LongPres <- PresNone
  Emit = TRUE
 SPECIFICATION Spec
 INVARIANTS CheckAndEmit
